@@ -1,6 +1,6 @@
 /-
   C18 — Reference counts and evaluation statistics equal what the model contains.
-  Proved for EVERY code model.  Not yet proved in Lean (covered by the correspondence + oracle only):
+  Proved for EVERY code model (including the concept report's conservation law `concept_sum`).  Formerly open:
   the concept clause `concept_sum` — kept below as a visible `def … : Prop`.
 -/
 import CocaVerif.Proofs.Stats
@@ -138,10 +138,50 @@ theorem nullable_iff (ids : List DS) (name : String) :
   · rintro ⟨d, hd, f, ⟨hf, hn⟩, rfl⟩; exact ⟨d, hd, f, hf, rfl, hn⟩
   · rintro ⟨d, hd, f, hf, rfl, hn⟩; exact ⟨d, hd, f, ⟨hf, hn⟩, rfl⟩
 
-/-- NOT YET PROVED (stated, visible): the concept report's counts sum to the number of words of
-    the method names that are not stop words. Exercised by the correspondence and the oracle. -/
-def concept_sum : Prop := ∀ clzs : List DS,
-  ((conceptReport clzs).map (·.2)).sum = ((allWords clzs).filter fun w => !stopWords.contains w).length
+/-- the concept report's counts sum to the number of words of the method names that are not stop words -/
+theorem concept_sum (clzs : List DS) :
+    ((conceptReport clzs).map (·.2)).sum = ((allWords clzs).filter fun w => !stopWords.contains w).length := by
+  unfold conceptReport
+  generalize allWords clzs = ws
+  -- sorting permutes the entries
+  have hperm : (conceptReport' ws).Perm (GoMap.entries (removeStop (countWords ws))) := List.mergeSort_perm _ _
+  rw [(hperm.map (·.2)).sum_nat]
+  have hs := GoMap.sum_entries (fun n : Nat => n) (removeStop (countWords ws))
+  rw [hs]
+  -- the surviving keys are the non-stop words that occur, each with its number of occurrences
+  unfold GoMap.sumW removeStop
+  generalize stopWords = S
+  rw [removeStop_keys]
+  have hval : ∀ q ∈ (GoMap.keys (countWords ws)).filter (fun q => !S.contains q),
+      (GoMap.get? (S.foldl GoMap.erase (countWords ws)) q).elim 0 (fun n => n) = ws.count q := by
+    intro q hq
+    have hns : S.contains q = false := by simpa using (List.mem_filter.mp hq).2
+    rw [removeStop_get, hns, countWords_get]
+    by_cases hc : ws.count q = 0 <;> simp [hc]
+  rw [List.map_congr_left hval]
+  have hnd : ((GoMap.keys (countWords ws)).filter fun q => !S.contains q).Nodup :=
+    (GoMap.keys_nodup _).sublist List.filter_sublist
+  rw [sum_count_nodup _ hnd ws]
+  apply congrArg List.length
+  apply List.filter_congr
+  intro w hw
+  -- a word of `ws` is a key of the count map
+  have hk : w ∈ GoMap.keys (countWords ws) := by
+    apply (GoMap.get?_isSome_iff_mem_keys _ _).mp
+    rw [countWords_get]
+    have : ws.count w ≠ 0 := by
+      have := List.count_pos_iff.mpr hw
+      omega
+    simp [this]
+  cases hst : S.contains w
+  · simp only [Bool.not_false]
+    exact List.contains_iff_mem.mpr (List.mem_filter.mpr ⟨hk, by rw [hst]; rfl⟩)
+  · simp only [Bool.not_true]
+    cases hh : ((GoMap.keys (countWords ws)).filter fun q => !S.contains q).contains w
+    · rfl
+    · have h2 := (List.mem_filter.mp (List.contains_iff_mem.mp hh)).2
+      rw [hst] at h2
+      cases h2
 
 /-- non-vacuity / regression examples -/
 example : isStatic { modifiers := ["static", "public"] } = true ∧ isStatic { modifiers := ["public", "static"] } = true := by decide
